@@ -218,6 +218,7 @@ pub fn rand_policy(rng: &mut Rng, hostile: bool) -> IoPolicy {
         pend_flush: pend(rng),
         pend_read: pend(rng),
         read_chunks: vec![],
+        slow_write_us: 0,
     }
 }
 
@@ -585,9 +586,16 @@ impl Gen {
             8 => {
                 let cancel_at = self.cancel();
                 let rng = &mut self.rng;
+                // plain, with a reason code, with properties (the builder then fills in the reason), or both
+                let props = match rng.below(6) {
+                    0 => Some(vec![Prop::ReasonString(rand_string(rng, 6))]),
+                    1 => Some(vec![Prop::UserProperty(rand_string(rng, 3), rand_string(rng, 3))]),
+                    2 => Some(vec![]),
+                    _ => None,
+                };
                 Step::Disconnect(DiscSpec {
                     reason: *rng.pick(&[None, None, Some(0u8), Some(4), Some(0x80)]),
-                    props: None,
+                    props,
                     cancel_at,
                 })
             }
